@@ -48,6 +48,21 @@ nni_time_get(uint64_t *sec, uint32_t *nsec)
 	return (nni_plat_errno(errno));
 }
 
+#ifdef NNG_VERIF
+// Verification hook H4 (add-only): a virtual clock.  nni_clock() reports real
+// monotonic time plus an offset that the harness advances; timed waits on
+// condition variables subtract it again (posix_thread.c), and the expire
+// threads are woken when it changes (aio.c).  See /verif/DESIGN.md.
+nni_atomic_u64 nni_verif_clock_offset;
+extern void    nni_verif_expire_kick(void);
+void
+nng_verif_clock_advance(uint64_t ms)
+{
+	nni_atomic_add64(&nni_verif_clock_offset, ms);
+	nni_verif_expire_kick();
+}
+#endif
+
 #if defined(NNG_HAVE_CLOCK_GETTIME) && !defined(NNG_USE_GETTIMEOFDAY)
 
 // Use POSIX realtime stuff
@@ -65,6 +80,9 @@ nni_clock(void)
 	msec = ts.tv_sec;
 	msec *= 1000;
 	msec += (ts.tv_nsec / 1000000);
+#ifdef NNG_VERIF
+	msec += nni_atomic_get64(&nni_verif_clock_offset);
+#endif
 	return (msec);
 }
 
